@@ -551,6 +551,24 @@ pub fn polyline_catalogue(max_n: usize, g: i32, stride: i32, pos: P2) -> Vec<Sha
     v
 }
 
+/// every polyline with exactly `n` vertices on a g x g grid (stride 1) at `pos`: dense enough for every pair of
+/// segment directions with small deltas (joins whose rounded corners coincide need particular slopes)
+pub fn polyline_dense(n: usize, g: i32, pos: P2) -> Vec<Shape> {
+    let cells = (g * g) as usize;
+    let total = cells.pow(n as u32);
+    let mut v = Vec::with_capacity(total);
+    for mut i in 0..total {
+        let mut pts = Vec::with_capacity(n);
+        for _ in 0..n {
+            let c = (i % cells) as i32;
+            i /= cells;
+            pts.push((c % g + pos.0, c / g + pos.1));
+        }
+        v.push(Shape::Polyline { pts, tx: 0, ty: 0 });
+    }
+    v
+}
+
 /// Expands `$body` for the four closed shapes with `$s` = the concrete `Styled` and `$p` = the
 /// primitive; other shapes evaluate `$other`.
 #[macro_export]
